@@ -67,6 +67,10 @@ static std::string get_readable_dname(std::string& wire_dname)
             return wire_dname;
 
         labels++;
+        // The next label length byte has to lie inside of the name
+        if (pos >= dname.size())
+            return wire_dname;
+
         label_len = dname[pos];
 
         // Replace all label length bytes with '.' character
